@@ -103,6 +103,25 @@ func RunRandGroth16(p *Prog, r *Report) {
 			}
 		}
 		pos := p.Pos(FuncPos(fn))
+		// every draw is unconditional: its block dominates every successful return of Prove
+		g := buildAccGraph(p, fn, "error")
+		conditional := ""
+		for _, c := range rnd {
+			if c.Parent() != fn {
+				continue
+			}
+			for _, a := range g.acceptingEnds() {
+				ab := g.nodes[a].blk
+				if ab != c.Block() && !c.Block().Dominates(ab) {
+					conditional = p.Pos(c.Pos())
+				}
+			}
+		}
+		if conditional != "" {
+			r.Fail("RAND-SOURCE", pkg, fname, "unconditional-draw", pos, "the SetRandom call at "+conditional+" does not dominate every successful return of Prove: on some path the proof is produced without fresh randomness (the blinding scalar keeps its zero value)")
+		} else {
+			r.Pass("RAND-SOURCE", pkg, fname, "unconditional-draw", pos, fmt.Sprintf("all %d SetRandom calls dominate every successful return", len(rnd)), true)
+		}
 		if len(distinct) >= 2 && unchecked == 0 {
 			r.Pass("RAND-SOURCE", pkg, fname, "two-fresh-scalars", pos, fmt.Sprintf("%d distinct SetRandom receivers, every error result checked", len(distinct)), true)
 		} else {
